@@ -424,6 +424,29 @@ def shard_logger_extra(args):
         acc.outcome(("odd-template", problem is None))
         if problem:
             acc.violation(problem[0], problem[1], case, size=(1, len(template)))
+    # (1a) ... also when another field in front of it has a conversion that does not fit the
+    #      values the constructor tries the template with
+    for unknown, known, conversion, order in itertools.product(
+            ["bogus", "Demand", ""], KNOWN_FIELDS[:4], ["x", "d", "c", ".2f", "s", "r"], (0, 1)):
+        parts = ["k=%%(%s)%s" % (known, conversion), "u=%%(%s)s" % unknown]
+        template = " ".join(parts if order == 0 else reversed(parts))
+        case = {"kind": "odd-template", "template": template}
+        problem = run_logger_extra(case)
+        acc.case(nontrivial_key=repr(case), sample=case if conversion == "x" else None)
+        acc.outcome(("odd-template-conversion", problem is None))
+        if problem:
+            acc.violation(problem[0], problem[1], case, size=(1, len(template)))
+    # (1c) re-targeting a decorator inside a stack: everything above it follows
+    for kinds, layer in itertools.product(
+            ["PP", "LP", "PL", "PPP", "LPL", "PLP"], (0, 1, 2)):
+        if layer >= len(kinds):
+            continue
+        case = {"kind": "retarget", "stack": kinds, "layer": layer}
+        problem = run_logger_extra(case)
+        acc.case(nontrivial_key=repr(case), sample=case)
+        acc.outcome(("retarget", problem is None))
+        if problem:
+            acc.violation(problem[0], problem[1], case, size=(len(kinds), layer))
     # (1b) records are kept by handlers and formatted later: each one keeps describing its
     #      own write
     for writes in itertools.permutations(WRITES, 2):
@@ -472,6 +495,40 @@ def run_logger_extra(case):
         return ("logger:unknown-field-accepted",
                 "template %r (an unknown field) was accepted by the constructor"
                 % case["template"])
+    if case["kind"] == "retarget":
+        from cobald.interfaces import PoolDecorator
+
+        other = new_pool()
+        other.demand, other.supply, other.utilisation, other.allocation = 11, 12, 0.5, 0.625
+        layers, below = [], pool
+        for number, kind in enumerate(reversed(case["stack"])):
+            if kind == "L":
+                below = Logger(below, name="verif.c16.retarget%d" % number)
+            else:
+                below = PoolDecorator(below)
+            layers.append(below)
+        layers.reverse()     # layers[0] is the top
+        top = layers[0]
+        for name in ATTRIBUTES:
+            getattr(top, name)        # a first look through the stack as it was built
+        bottom_up = list(reversed(layers))
+        changed = bottom_up[case["layer"]]
+        expected = other
+        changed.target = other
+        for name in ATTRIBUTES:
+            through, direct = getattr(top, name), getattr(expected, name)
+            if through != direct:
+                return ("decorator:stale-after-retarget",
+                        "stack %s: layer %d (from the bottom) was given another target; %s "
+                        "read at the top is %r, the pool now underneath has %r"
+                        % (case["stack"], case["layer"], name, through, direct))
+        top.demand = 21
+        if other.demand != 21 or pool.demand == 21:
+            return ("decorator:write-after-retarget",
+                    "stack %s after re-targeting layer %d: a write of 21 at the top gave "
+                    "the new pool %r and the old pool %r" % (
+                        case["stack"], case["layer"], other.demand, pool.demand))
+        return None
     if case["kind"] == "kept-records":
         kept = []
 
